@@ -250,7 +250,10 @@ class FnView:
         k = n.get("k")
         T = lambda x: self.term(x, depth + 1)
         if k == "lit":
-            return lit_term(n)
+            t_ = lit_term(n)
+            if t_ == ("lit", 18446744073709551615):
+                return ("const", "core::num::MAX")        # the all-ones 64-bit value however it is spelled
+            return t_
         if k == "local":
             lid = n["id"]
             b = self.binds.get(lid)
@@ -265,6 +268,8 @@ class FnView:
             if dk.startswith("Const") or dk.startswith("AssocConst") or dk.startswith("Static"):
                 c = self.prog.consts.get(p)
                 if c is not None and c.get("scalar") is not None and c.get("ty") in INT_TYS:
+                    if int(c["scalar"]) == 18446744073709551615:
+                        return ("const", "core::num::MAX")    # a named sentinel `const NONE: u64 = u64::MAX`
                     return ("lit", int(c["scalar"]))
                 return ("const", p)
             if dk.startswith("Ctor"):
@@ -341,6 +346,9 @@ class FnView:
             return ("unit",)
         if k == "if":
             c_, a_, b_ = T(n["cond"]), T(n["then"]), T(n.get("else"))
+            if c_[0] == "bin" and c_[1] in ("<", "<=") and n.get("else") is not None and {a_, b_} == {c_[2], c_[3]} and a_ != b_:
+                # `if x < y { x } else { y }` is min(x, y); `if x < y { y } else { x }` is max(x, y)
+                return mk_bin("min" if a_ == c_[2] else "max", a_, b_)
             if c_[0] == "iflet" and c_[1][0] == "ptstruct" and c_[1][1].endswith("::Some") and n.get("else") is not None \
                     and a_ == ("variant", "Some", 0, c_[2]) and not contains(b_, lambda s_: s_[0] in ("ret", "break", "continue")):
                 return ("call", "std::option::Option::unwrap_or", c_[2], b_)     # value selection == unwrap_or
